@@ -232,3 +232,71 @@ Theorem ex_failures :
   block_of (Print_h (Some 2%positive) ex_h) = None /\                                  (* not a node: error outcome *)
   prealloc_of (PrintPreallocated_h None (Some (repeat 7 10)) 10 false ex_h) = Some (false, Some (repeat 7 10), 0, 0%nat).
 Proof. split_and!; vm_compute; reflexivity. Qed.
+
+(** * a structure that is NOT finite below the item: [complete] fails, the printer does not terminate
+    cJSON_AddItemReferenceToArray(a, a) on a non-empty array (public API only) appends a reference node whose
+    child pointer is a->child: the chain it borrows contains the reference node itself.  The real
+    cJSON_PrintUnformatted(a) recurses until the stack is exhausted (observed under ASan: stack-overflow;
+    cJSON_Duplicate of the same structure stops at CJSON_CIRCULAR_LIMIT and returns NULL).  In the model: the
+    heap is a well-formed forest with a live reference target, but no unrolling is complete (checked to 6
+    levels), and the heap-level printer runs out of fuel — for the fuel of the public entry point and for
+    ten times as much. *)
+Definition ex3_build : M ptr :=
+  a <~ cJSON_CreateArray orc0 ;;
+  n <~ cJSON_CreateNumber orc0 (dbl_of_int 1) ;;
+  cJSON_AddItemToArray a n ;;;
+  cJSON_AddItemReferenceToArray orc0 a a ;;;
+  ret a.
+Definition ex3_run := Eval vm_compute in ex3_build empty_heap.
+Definition ex3_h : heap := match ex3_run with Ret (_, h) => h | Err _ => empty_heap end.
+Definition ex3_t : tree :=
+  (T 1 (mkRD 32 None 0 dzero None None)
+     [T 2 (mkRD 8 None 1 (dbl_of_int 1) None None) []; T 3 (mkRD 288 None 0 dzero None (Some 2%positive)) []])%positive.
+Definition ex3_F : forest := [ex3_t].
+
+Definition err_of {A} (o : out A) : option err := match o with Ret _ => None | Err e => Some e end.
+
+(** boolean form of [complete]: no leaf keeps a child pointer *)
+Definition cut_freeb (u : tree) : bool :=
+  forallb (fun e : fnode => match fn_cids e, rd_ref (fn_data e) with [], Some _ => false | _, _ => true end) (flat_t u).
+Lemma complete_cut_freeb u : complete u -> cut_freeb u = true.
+Proof.
+  intros Hu. apply forallb_forall. intros [[i d] ks] Hin. apply elem_of_list_In in Hin. cbn.
+  destruct ks; [|done]. by rewrite (Hu i d Hin).
+Qed.
+
+Lemma ex3_run_ok : ex3_build empty_heap = Ret (Some 1%positive, ex3_h).
+Proof. vm_compute. reflexivity. Qed.
+Lemma ex3_WF : WF ex3_h ex3_F.
+Proof.
+  constructor.
+  - dec_vm.
+  - dec_vm.
+  - dec_vm.
+  - dec_vm.
+  - apply Forall_forall. dec_vm.
+  - apply Forall_forall. dec_vm.
+  - apply Forall_forall. dec_vm.
+  - unfold ref_ok. dec_vm.
+Qed.
+Lemma ex3_refs_in : refs_in ex3_F.
+Proof. apply refs_in_check. vm_compute. reflexivity. Qed.
+Lemma ex3_never_complete : forall k, (k <= 6)%nat -> ~ complete (unroll ex3_F k ex3_t).
+Proof.
+  intros k Hk Hc. apply complete_cut_freeb in Hc.
+  do 7 (destruct k as [|k]; [vm_compute in Hc; discriminate Hc|]). lia.
+Qed.
+Lemma ex3_no_fuel :
+  err_of (PrintUnformatted_h (Some 1%positive) ex3_h) = Some NoFuel /\
+  err_of (print_h fmt_d fmt_g15 fmt_g17 sscanf_lg orc0 junk_a5 40 40 (Some 1%positive) false ex3_h) = Some NoFuel.
+Proof. split; vm_compute; reflexivity. Qed.
+
+Theorem ex_cyclic :
+  ex3_build empty_heap = Ret (Some 1%positive, ex3_h) /\ WF ex3_h ex3_F /\ refs_in ex3_F /\
+  find_tree 1%positive ex3_F = Some ex3_t /\
+  (forall k, (k <= 6)%nat -> ~ complete (unroll ex3_F k ex3_t)) /\
+  err_of (PrintUnformatted_h (Some 1%positive) ex3_h) = Some NoFuel /\
+  err_of (print_h fmt_d fmt_g15 fmt_g17 sscanf_lg orc0 junk_a5 40 40 (Some 1%positive) false ex3_h) = Some NoFuel.
+Proof.
+  exact (conj ex3_run_ok (conj ex3_WF (conj ex3_refs_in (conj eq_refl (conj ex3_never_complete ex3_no_fuel))))).
+Qed.
